@@ -29,7 +29,7 @@ ALLOW_BV = True
 RULE = ("the 256 one-octet checksums from state 0 (the whole table) on every run; (state, octet) sweeps over ranges of 256 states x all "
         "256 octets compared by a rolling hash (16 random ranges quick, all 256 ranges = all 2^24 pairs thorough); all one- and two-octet "
         "buffers from sampled states; random buffers up to 4 KiB from random start values, split at random/every position; word buffers "
-        "of every length 0..64 and of lengths around the powers of two up to 2048 words.  Three-way: C code vs. table-driven model (table regenerated from the source) vs. bitwise spec.  Non-trivial = "
+        "of every length 0..64 and of lengths around the powers of two up to 2048 words; dense rule-made buffers of 2^16 ... 2^19 (thorough: 2^21) octets, whole, in two parts and as words.  Three-way: C code vs. table-driven model (table regenerated from the source) vs. bitwise spec.  Non-trivial = "
         "non-empty buffer; distinct = distinct operation text.")
 EXHAUSTIVE = {"quick": False, "thorough": True}
 ASSUMPTIONS = [
@@ -94,6 +94,12 @@ def cases(tier, seed):
         ks = range(0, n + 1) if (n <= 65 or (tier == "thorough" and n <= 256)) else [rnd.randint(0, n) for _ in range(8)]
         ops += ["crc.split %04x %s %d" % (init, buf, k) for k in ks]
         cs.append(Case("buf-%d" % i, ops, ("buffer",)))
+    # dense buffers far longer than a line of hex carries (made by rule on both sides): lengths around 2^16, 2^18 and 2^20
+    # octets - counters of an implementation that works in blocks may be narrower than size_t
+    mids = [65535, 65536, 65537, 131072 + 3, 262143, 262144, 262145, 262147, 300001, 524288 + 2] + ([1048576, 1048576 + 5, 2097152 + 6] if tier == "thorough" else [])
+    ops = ["crc.mid %04x %d %d" % (rnd.choice([0, 0xffff, rnd.getrandbits(16)]), n, rnd.choice([0, n // 2, n - 1, rnd.randint(0, n)])) for n in mids]
+    for i in range(0, len(ops), 5):
+        cs.append(Case("mid-%d" % i, ops[i:i + 5], ("buffer", "long")))
     # sparse buffers: runs of zero octets behind / between a few non-zero ones, from start value zero and others (zero
     # octets from state zero leave the state alone - a shortcut taken on that must not be taken one octet too early or late);
     # the harness runs every buffer at start alignments 0..7
